@@ -119,6 +119,21 @@ void prop(Src& s, Ctx& ctx) {
         }
         if (IP* root = dynamic_cast<IP*>(&pdu)) if (root->src_addr() == IPv4Address((uint32_t)0)) { ctx.excluded("outermost-ip-src-0.0.0.0"); return; }
         if (edits) { origin = "program: " + b.text(); if (ctx.logging()) ctx.log("after edits: " + origin); check_serialize(pdu, ctx, origin); }
+        if ((domain & 0xf8) == 0xf8) {
+            // a payload that takes the packet to and beyond what 16-bit length fields can express: serialisation must still
+            // be total and size-exact (what the length fields then say is not this property's business). Drawn last.
+            static const uint32_t BIG[] = {65535, 65536, 65507, 65515, 65527, 65495, 65475, 70000, 131075};
+            uint32_t n = BIG[s.pick(sizeof BIG / sizeof *BIG)];
+            if (s.boolean()) n -= (uint32_t)s.range(0, 64);
+            std::vector<uint8_t> big(n);
+            for (uint32_t i = 0; i < n; ++i) big[i] = (uint8_t)(i * 31 + n);
+            RawPDU r(big.begin(), big.end());
+            pdu /= r;
+            b.program.push_back("/= RawPDU(" + std::to_string(n) + " bytes)");
+            ctx.label("payload>=64KiB-region");
+            origin = "program: " + b.text();
+            check_serialize(pdu, ctx, origin);
+        }
         PacketView pv = view_packet(pdu);
         unsigned nopt = count_options(pv);
         ctx.hash("built"); ctx.hash(layer_chain(pdu)); ctx.hash(hash_str(b.text()));
